@@ -20,6 +20,10 @@ extern ssize_t mpt_qpre(MPT_STRUCT(queue) *queue, size_t len)
 {
 	size_t low, high, total;
 	
+	/* nothing to reserve */
+	if (!len) {
+		return 0;
+	}
 	mpt_queue_empty(queue, &low, &high);
 	total = low + high;
 	
